@@ -3,6 +3,7 @@ package main
 // SMT term construction (s-expression strings) and solver racing.
 
 import (
+	"runtime"
 	"strconv"
 	"bytes"
 	"context"
@@ -220,9 +221,36 @@ var backends = []backend{
 	{"z3-5.1.0/case3", func(f string, t int) []string {
 		return []string{"z3-new", fmt.Sprintf("-T:%d", t), "auto_config=false", "smt.case_split=3", f}
 	}},
+	{"z3-4.8.12/seed11", func(f string, t int) []string {
+		return []string{"/usr/bin/z3", fmt.Sprintf("-T:%d", t), "smt.random_seed=11", f}
+	}},
+	{"z3-4.8.12/seed42", func(f string, t int) []string {
+		return []string{"/usr/bin/z3", fmt.Sprintf("-T:%d", t), "smt.random_seed=42", f}
+	}},
+	{"z3-4.8.12/seed77", func(f string, t int) []string {
+		return []string{"/usr/bin/z3", fmt.Sprintf("-T:%d", t), "smt.random_seed=77", f}
+	}},
+}
+
+// procSlots bounds the number of solver processes running at once by the number of cores: a solver's time
+// limit is wall-clock time, which is only meaningful when the process has a core to itself (the races of
+// several obligations would otherwise starve each other and turn slow-but-provable goals into timeouts)
+var procSlots = make(chan struct{}, maxInt(2, runtime.NumCPU()))
+
+func maxInt(a, b int) int {
+	if a > b {
+		return a
+	}
+	return b
 }
 
 func runOne(ctx context.Context, b backend, file string, timeoutS int) SolverResult {
+	select {
+	case procSlots <- struct{}{}:
+		defer func() { <-procSlots }()
+	case <-ctx.Done():
+		return SolverResult{Status: "timeout", Backend: b.name}
+	}
 	start := time.Now()
 	argv := b.argv(file, timeoutS)
 	cctx, cancel := context.WithTimeout(ctx, time.Duration(timeoutS+2)*time.Second)
